@@ -421,5 +421,59 @@ SUBS = [
     Sub("events", run_events, kind="enum", enumerate=enum_events, shards=(1, 1),
         rule="Event: 17 value forms x both kinds; finite, enumerated completely"),
 ]
+# ---------------------------------------------------------------------------------------
+# the same accept / refuse decisions when several threads construct objects at the same time (the harness owns the schedule as far
+# as CPython lets it: a switch interval of a microsecond); each call is judged on its own arguments
+def enum_threads(tier):
+    for arg in ARG_LIST:
+        yield {"arg": arg, "threads": 4, "calls": 1500 if tier == "quick" else 20000}
+
+
+def run_threads(ctx, case):
+    import sys
+    import threading
+
+    arg = case["arg"]
+    CONTEXT[0] = "std"
+    req, factory, sized, seq_ok = table()[arg]
+    good = lambda: np.ones(req)  # noqa
+    bads = [np.ones(tuple(x + 1 for x in req)), np.ones(req + (1,)), np.ones(())]
+    wrong = []
+    lock = threading.Lock()
+
+    def worker(k):
+        for i in range(case["calls"]):
+            bad = (i + k) % 2 == 1
+            val = bads[(i // 2 + k) % len(bads)] if bad else good()
+            try:
+                factory(val)
+                accepted = True
+            except Exception:  # noqa
+                accepted = False
+            if accepted == bad:
+                with lock:
+                    wrong.append(("accepted shape %s" % (val.shape,)) if bad else "refused the required shape")
+                return
+
+    old = sys.getswitchinterval()
+    sys.setswitchinterval(1e-6)
+    try:
+        ts = [threading.Thread(target=worker, args=(k,)) for k in range(case["threads"])]
+        for th in ts:
+            th.start()
+        for th in ts:
+            th.join()
+    finally:
+        sys.setswitchinterval(old)
+    if wrong:
+        ctx.fail(f"{arg}/threads/wrong-decision", f"{arg}: with {case['threads']} threads constructing objects at the same time, a call {wrong[0]} (required: {req}); "
+                                                  f"one thread at a time every decision is right")
+    ctx.case(case, True, labels=[arg, "threads"])
+
+
+SUBS.append(Sub("concurrent-constructors", run_threads, kind="enum", enumerate=enum_threads, shards=(4, 8),
+                rule="each of the 21 validated arguments: 4 threads x 1500 (thorough 20000) constructor calls alternating the required shape and wrong shapes, thread switch interval 1 us; "
+                     "every call judged on its own arguments; finite, enumerated", nontrivial_required=False))
+
 from ..core import optimised_child_sub  # noqa: E402
 SUBS.append(optimised_child_sub("C19", ["shape-lattice", "coupled-arrays", "events"]))
